@@ -29,7 +29,9 @@ assert "sbom-formats" in BP_TOML["valid-sbom-formats"]
 VALID_TOMLS = ("valid", "valid-sbom-formats")
 MANDATORY = ["CNB_TARGET_OS", "CNB_TARGET_ARCH", "CNB_TARGET_DISTRO_NAME", "CNB_TARGET_DISTRO_VERSION"]
 
-LAUNCH = {"processes": [{"type": "web", "command": ["run"], "args": ["a b"], "default": True}], "labels": [["k", "v"]]}
+LAUNCH = {"processes": [{"type": "web", "command": ["run"], "args": ["a b"], "default": True}], "labels": [["k", "v"]], "slices": [["static/**"]]}
+# the launch configuration is set twice on the result builder: what was set last is the result
+LAUNCH_FIRST = {"processes": [{"type": "superseded", "command": ["old"]}], "labels": [["old", "1"]], "slices": [["old/*"]]}
 STORE = {"k": "v", "n": {"x": 1}}
 BUILD_SBOMS = [[], [["cdx", "{\"b\":1}"]], [["cdx", "{\"b\":1}"], ["syft", "{\"b\":2}"]]]
 # the last set shares the cdx format with the build SBOM sets (same file extension, different files)
@@ -220,7 +222,8 @@ def judge(w, cfg):
             os.makedirs(w.p("layers", "broken"), exist_ok=True)
             spec["ops"] = [{"op": "cached", "name": "broken", "build": True}]
         if launch:
-            spec["launch"] = LAUNCH
+            spec["launch"] = LAUNCH_FIRST
+            spec["launch2"] = LAUNCH
         if store == "empty":
             spec["store"] = {}
         elif store:
@@ -366,7 +369,7 @@ def judge(w, cfg):
             if want == "LAUNCH":
                 procs = doc.get("processes", [])
                 ok = (len(procs) == 1 and procs[0].get("type") == "web" and procs[0].get("command") == ["run"] and procs[0].get("args", []) == ["a b"]
-                      and procs[0].get("default", False) is True and doc.get("labels") == [{"key": "k", "value": "v"}])
+                      and procs[0].get("default", False) is True and doc.get("labels") == [{"key": "k", "value": "v"}] and doc.get("slices") == [{"paths": ["static/**"]}])
                 if not ok or set(doc) - {"processes", "labels", "slices"}:
                     bad("launch-content", f"launch.toml {doc} differs from the returned launch configuration")
             elif want == "STORE-EMPTY":
@@ -424,7 +427,7 @@ def run(ctx):
     res.cov("distinct_nontrivial", len(nontrivial))
     res.cov("distinct_outcomes", sorted(outcomes))
     res.cov("determinism_replays", 5)
-    res.cov("rule", "configurations = executable name (phase, other, <buildpack dir>/bin/phase, phase.bak) x argument count 0..4 x buildpack.toml (valid, valid with a declared sbom-formats list, api 0.9/0.11/1/missing, malformed, not UTF-8 inside a comment, file missing, unknown key) x CNB_BUILDPACK_DIR x each mandatory CNB_TARGET_* variable x ARCH_VARIANT x behaviour (4 detect; 16 pass results x SBOM sets + error + layer error for build) x stale outputs; plus, for valid detect invocations, the plan path as a bare file name, ./name, a path in a missing directory and non-UTF-8 plan / platform paths x 4 behaviours; every argument count with the lifecycle's CNB_*_DIR/PATH variables exported; each run as a real process; plus every in-process sequence of 2 (thorough 3) programmatic detect/build calls over 12 symbols, exit status and written files of each step compared with the same call alone in a fresh process; non-trivial = configurations that reach the phase or deviate from a valid invocation in exactly one dimension")
+    res.cov("rule", "configurations = executable name (phase, other, <buildpack dir>/bin/phase, phase.bak) x argument count 0..4 x buildpack.toml (valid, valid with a declared sbom-formats list, api 0.9/0.11/1/missing, malformed, not UTF-8 inside a comment, file missing, unknown key) x CNB_BUILDPACK_DIR x each mandatory CNB_TARGET_* variable x ARCH_VARIANT x behaviour (4 detect; 16 pass results, the launch configuration set twice on the builder, x SBOM sets + error + layer error for build) x stale outputs; plus, for valid detect invocations, the plan path as a bare file name, ./name, a path in a missing directory and non-UTF-8 plan / platform paths x 4 behaviours; every argument count with the lifecycle's CNB_*_DIR/PATH variables exported; each run as a real process; plus every in-process sequence of 2 (thorough 3) programmatic detect/build calls over 12 symbols, exit status and written files of each step compared with the same call alone in a fresh process; non-trivial = configurations that reach the phase or deviate from a valid invocation in exactly one dimension")
     res.cov("bound", {"deviations_from_valid_invocation": "<=3 all behaviours" if not ctx.thorough else "full product for detect and for build up to 3 deviations; beyond that build behaviours {first,last}"})
     res.cov("exhaustive", True)
     res.sample(cfgs[0])
